@@ -302,3 +302,12 @@ _EDITS10 = [
 for _k, _a, _b in _EDITS10:
     assert _a in TEXTS[_k][0], (_k, _a[:40], TEXTS[_k][0][:120])
     TEXTS[_k] = (TEXTS[_k][0].replace(_a, _b, 1), TEXTS[_k][1])
+
+_EDITS11 = [
+ ("C03", "reported by the cycle that processes the commit)", "reported by the cycle that processes the commit; hold over the scheduler: through any history of threads "
+  "and drain steps the commits in the batch are exactly the CommitCollect commands popped along it, so a record of a trace is in a cycle's report only if that cycle popped the "
+  "trace's commit during its own drain, and a cycle that pops no commit reports nothing)"),
+]
+for _k, _a, _b in _EDITS11:
+    assert _a in TEXTS[_k][0], (_k, _a[:40], TEXTS[_k][0][:120])
+    TEXTS[_k] = (TEXTS[_k][0].replace(_a, _b, 1), TEXTS[_k][1])
